@@ -523,14 +523,32 @@ impl AState {
         let mut keyed = keyed;
         keyed.sort_by(|a, b| (a.0, a.1).cmp(&(b.0, b.1)));
         let mut state = WarpState::new();
-        // apply layer by layer: each layer is one patch application (ops are re-sorted
-        // canonically inside a patch, so to vary bucket order we apply edges one at a time)
-        for (_, _, op) in keyed {
-            let patch = WarpTickPatchV1::new(0, [0; 32], TickCommitStatus::Committed, vec![], vec![], vec![op.to_real()]);
-            // portal validation would reject intermediate states; use raw op semantics that
-            // do not trigger it: instance upserts + Descend attachments are applied last
-            let _ = patch.apply_to_state(&mut state);
+        // Layers are applied in dependency order. Ops inside one patch are re-sorted
+        // canonically, so to vary storage layout (edge bucket order) edges are applied one per
+        // patch when an explicit order is given; everything else goes in bulk. Portal
+        // validation errors on intermediate states are ignored (ops are applied before the
+        // validation runs); `build_real` verifies the final dump.
+        let mut bulk: Vec<WarpOp> = Vec::new();
+        let mut cur_layer = 0u8;
+        let flush = |state: &mut WarpState, bulk: &mut Vec<WarpOp>| {
+            if !bulk.is_empty() {
+                let patch = WarpTickPatchV1::new(0, [0; 32], TickCommitStatus::Committed, vec![], vec![], std::mem::take(bulk));
+                let _ = patch.apply_to_state(state);
+            }
+        };
+        for (layer, _, op) in keyed {
+            if layer != cur_layer {
+                flush(&mut state, &mut bulk);
+                cur_layer = layer;
+            }
+            if layer == 2 && !order.is_empty() {
+                let patch = WarpTickPatchV1::new(0, [0; 32], TickCommitStatus::Committed, vec![], vec![], vec![op.to_real()]);
+                let _ = patch.apply_to_state(&mut state);
+            } else {
+                bulk.push(op.to_real());
+            }
         }
+        flush(&mut state, &mut bulk);
         state
     }
 
